@@ -222,6 +222,26 @@ def assoc_width_cases(ctx, n):
     return out
 
 
+def text_inside_208_cases(ctx, n):
+    """Stratum: a 205YYY character field INSIDE the scope of a 208ZZZ operator with another width (205 is not an element of
+    Table B: 208 does not resize it), followed by a string element (resized) and a numeric one, then the same after 208000."""
+    import tmplgen
+    rng = ctx.rng
+    p = tmplgen.pools(33)
+    strs = [i for i in p.string if p.b[i][4] <= 160] if hasattr(p, 'string') else [1015, 1019, 1063]
+    out = []
+    for k in range(n):
+        y, z = rng.sample([1, 2, 3, 4, 5, 6, 8, 12], 2)
+        s1 = rng.choice(strs or [1015])
+        e = rng.choice([12101, 10004, 4001, 7001])
+        ids = [208000 + y, 205000 + z, s1, e, 208000, 205000 + z, s1] if k % 3 else [208000 + y, s1, 205000 + z, e, 205000 + y, 208000, e]
+        out.append({'ids': ids, 'version': 33, 'edition': 4, 'nsub': rng.choice([1, 2, 3]), 'compressed': rng.random() < 0.5,
+                    'forced': '-', 'seed': rng.randrange(1, 2 ** 32), 'maxrep': 3,
+                    'features': {'stratum-205-inside-208-scope': 1}, 'shared': False})
+        out[-1]['shared'] = out[-1]['compressed']
+    return out
+
+
 def apply_probe(c):
     """Values of a probe case: a function of the case record only (replays rebuild them)."""
     if c.get('probe') == 'assoc-two-widths' and c.get('val_toks'):
@@ -304,6 +324,7 @@ def run(ctx):
     cases += refval_zero_cases(ctx, ctx.n(12, 200))
     cases += skipped_local_width_cases(ctx, ctx.n(12, 200))
     cases += assoc_width_cases(ctx, ctx.n(12, 200))
+    cases += text_inside_208_cases(ctx, ctx.n(12, 200))
     P.attach_templates(cases)
     P.run_gen(cases)
     for c in cases:
